@@ -287,7 +287,7 @@ def run_concrete(entry: str, body: bytes, cuts: List[int], boundary: bytes, empt
     out = []
     for t in r:
         if t[0] == "field":
-            out.append(("field", t[1], "".join(map(chr, t[2]))))
+            out.append(("field", t[1], "".join(map(chr, t[2]))))  # items of the decoded text
         else:
             out.append(("file", t[1], t[2], t[3], bytes(t[4])))
     return out
